@@ -42,6 +42,9 @@ PINS = [
     'mesonbuild.backend.ninjabackend:NinjaBackend.generate_custom_target',
     'mesonbuild.backend.backends:Backend.get_build_by_default_targets',
     'mesonbuild.backend.backends:Backend.get_testlike_targets',
+    'mesonbuild.coredata:CoreData.init_backend_options',
+    'mesonbuild.backend.ninjabackend:NinjaBackend.generate_static_link_rules',
+    'mesonbuild.backend.ninjabackend:NinjaBackend.generate_dynamic_link_rules',
     'mesonbuild.build:Build.copy',
     'mesonbuild.build:Build.merge',
     'mesonbuild.interpreter.interpreter:Interpreter.do_subproject',
@@ -210,6 +213,7 @@ def py_parse(text: str) -> dict:
     lines = _logical_lines(text)
     env: T.Dict[str, str] = {}
     rules: T.List[str] = []
+    rule_binds: T.Dict[str, T.List[T.Tuple[str, str]]] = {}
     pools: T.List[str] = []
     edges: T.List[dict] = []
     defaults: T.List[str] = []
@@ -264,9 +268,9 @@ def py_parse(text: str) -> dict:
                 for _k, v in binds:
                     _expand(v, {})   # escapes must be well-formed
                 rules.append(name)
+                rule_binds[name] = binds
             else:
-                if name in pools or name == 'console':
-                    raise ManifestError('Load', 'DuplicatePool')
+                # a pool declared twice is the graph oracle's business (clause `pools`)
                 vals = [(k, _expand(v, env)) for k, v in binds]
                 if len(vals) != 1 or vals[0][0] != 'depth' or not re.fullmatch(r'[0-9]+', vals[0][1]):
                     raise ManifestError('Load', 'BadPool')
@@ -322,10 +326,13 @@ def py_parse(text: str) -> dict:
             rule = groups['rule'][0]
             if rule != 'phony' and rule not in rules:
                 raise ManifestError('Load', 'UnknownRule')
-            pool = dict(bvals).get('pool', '')
-            if pool not in ('', 'console') and pool not in pools:
-                raise ManifestError('Load', 'UnknownPool')
-            e = {'rule': rule, 'binds': bvals}
+            # the pool in effect: the statement's own binding, else the rule's (evaluated in the statement's scope)
+            if any(k == 'pool' for k, _v in bvals):
+                pool = [v for k, v in bvals if k == 'pool'][-1]
+            else:
+                rb = [v for k, v in rule_binds.get(rule, []) if k == 'pool']
+                pool = _expand(rb[-1], benv) if rb else ''
+            e = {'rule': rule, 'binds': bvals, 'pool': pool}
             for k in ('outs', 'iouts', 'ins', 'impl', 'oo', 'vals'):
                 if any(p == '' for p in groups[k]):
                     raise ManifestError('Load', 'EmptyPath')
@@ -340,10 +347,9 @@ def py_parse(text: str) -> dict:
             if any(isinstance(t, tuple) for t in toks):
                 raise ManifestError('Parse', 'ExpectedNewline')
             for t in toks:
-                p = py_canon(t)
-                if p not in known_nodes:
-                    raise ManifestError('Load', 'UnknownDefaultTarget')
-                defaults.append(p)
+                if t == '':
+                    raise ManifestError('Load', 'EmptyPath')
+                defaults.append(py_canon(t))
             i += 1
         elif word in ('include', 'subninja'):
             raise ManifestError('Load', 'IncludeUnsupported')
@@ -353,7 +359,7 @@ def py_parse(text: str) -> dict:
                 raise ManifestError('Parse', 'ExpectedEquals')
             env[m3.group(1)] = _expand(m3.group(2), env)
             i += 1
-    return {'rules': rules, 'defaults': defaults, 'edges': edges, 'vars': env}
+    return {'rules': rules, 'defaults': defaults, 'edges': edges, 'vars': env, 'pools': pools}
 
 
 def edge_all_outs(e: dict) -> T.List[str]:
@@ -365,7 +371,7 @@ def edge_all_ins(e: dict) -> T.List[str]:
 
 
 def oracle_check(rules: T.Sequence[str], edges: T.Sequence[dict], exists: T.Callable[[str], bool],
-                 reqs: T.Sequence[T.Tuple[str, str]]) -> dict:
+                 reqs: T.Sequence[T.Tuple[str, str]], pools: T.Sequence[str] = (), defaults: T.Sequence[str] = ()) -> dict:
     """the property's own predicate on a graph (sets/dicts/DFS; nothing shared with the Lean checker)"""
     res: T.Dict[str, T.Any] = {}
     rs = set(rules)
@@ -422,8 +428,15 @@ def oracle_check(rules: T.Sequence[str], edges: T.Sequence[dict], exists: T.Call
             unreached.append(f'{root}>{t}')
             pairs.append((root, t))
     res['reach'] = not unreached
-    res['wf'] = all(res[k] for k in ('rules', 'unique', 'acyclic', 'closed', 'reach'))
+    # the other declarations: pools bound by statements (own or rule's `pool =`) are declared once, defaults are produced
+    declared = collections.Counter(pools)
+    badpools = sorted({e.get('pool', '') for e in edges if e.get('pool', '') not in ('', 'console') and e.get('pool') not in declared})
+    res['pools'] = not badpools and all(c == 1 for c in declared.values()) and 'console' not in declared
+    baddef = [d for d in defaults if d not in producers]
+    res['defaults'] = not baddef
+    res['wf'] = all(res[k] for k in ('rules', 'unique', 'acyclic', 'closed', 'reach', 'pools', 'defaults'))
     res['unreached_pairs'] = pairs
+    res['detail_decl'] = {'undeclared_pools': badpools[:3], 'pools_declared': dict(declared), 'defaults_not_produced': baddef[:3]}
     res['detail'] = {'badrules': bad[:3], 'dup': dups[:3], 'missing': missing[:5], 'unreached': unreached[:5]}
     return res
 
@@ -474,7 +487,7 @@ def only_via_prereq(edges: T.Sequence[dict], reqs: T.Sequence[T.Tuple[str, str]]
     return out
 
 
-CLAUSES = ('wf', 'rules', 'unique', 'acyclic', 'closed', 'reach')
+CLAUSES = ('wf', 'rules', 'unique', 'acyclic', 'closed', 'reach', 'pools', 'defaults')
 
 
 def parse_verdict(ans: str) -> dict:
@@ -497,9 +510,12 @@ def parse_dump(ans: str) -> T.Union[dict, str]:
         return ans
     rules: T.List[str] = []
     defaults: T.List[str] = []
+    pools: T.List[str] = []
     edges = []
     for part in ans.split('|')[1:]:
-        if part.startswith('R:'):
+        if part.startswith('L:'):
+            pools = dec_list(part[2:])
+        elif part.startswith('R:'):
             rules = dec_list(part[2:])
         elif part.startswith('D:'):
             defaults = dec_list(part[2:])
@@ -511,17 +527,22 @@ def parse_dump(ans: str) -> T.Union[dict, str]:
                     k, _, v = kv.partition('=')
                     binds.append((dec(k), dec(v)))
             edges.append({'rule': dec(f[0]), 'outs': dec_list(f[1]), 'iouts': dec_list(f[2]), 'ins': dec_list(f[3]),
-                          'impl': dec_list(f[4]), 'oo': dec_list(f[5]), 'vals': dec_list(f[6]), 'binds': binds})
-    return {'rules': rules, 'defaults': defaults, 'edges': edges}
+                          'impl': dec_list(f[4]), 'oo': dec_list(f[5]), 'vals': dec_list(f[6]), 'binds': binds,
+                          'pool': dec(f[8]) if len(f) > 8 else ''})
+    return {'rules': rules, 'defaults': defaults, 'edges': edges, 'pools': pools}
 
 
 def same_graph(a: dict, b: dict) -> bool:
     if a['rules'] != b['rules'] or a['defaults'] != b['defaults'] or len(a['edges']) != len(b['edges']):
         return False
+    if list(a.get('pools', [])) != list(b.get('pools', [])):
+        return False
     for x, y in zip(a['edges'], b['edges']):
         for k in ('rule', 'outs', 'iouts', 'ins', 'impl', 'oo', 'vals'):
             if x[k] != y[k]:
                 return False
+        if x.get('pool', '') != y.get('pool', ''):
+            return False
         if [tuple(p) for p in x['binds']] != [tuple(p) for p in y['binds']]:
             return False
     return True
@@ -698,8 +719,8 @@ def run_job(job: dict) -> dict:
                     seen.add(p)
                     if os.path.lexists(os.path.join(bld, p)):
                         existing.append(p)
-        rec['pygraph'] = {'rules': g['rules'], 'defaults': g['defaults'],
-                          'edges': [{k: e[k] for k in ('rule', 'outs', 'iouts', 'ins', 'impl', 'oo', 'vals', 'binds')}
+        rec['pygraph'] = {'rules': g['rules'], 'defaults': g['defaults'], 'pools': g['pools'],
+                          'edges': [{k: e[k] for k in ('rule', 'outs', 'iouts', 'ins', 'impl', 'oo', 'vals', 'binds', 'pool')}
                                     for e in g['edges']]}
     else:
         # still give the Lean side a file listing: every token of the text that names an existing path
@@ -780,6 +801,16 @@ def safe_job(job: dict) -> dict:
                 'timeout': False, 'error': f'harness: {type(e).__name__}: {e}'[:200], 'harness_error': True}
 
 
+_OPTION_VALUES: T.Optional[T.Dict[str, T.List[str]]] = None
+
+
+def option_values() -> T.Dict[str, T.List[str]]:
+    global _OPTION_VALUES
+    if _OPTION_VALUES is None:
+        _OPTION_VALUES = projgen.backend_option_values()
+    return _OPTION_VALUES
+
+
 def gen_job(rng, label: str, args: T.List[str], feats: T.Optional[dict] = None, group: str = 'gen') -> dict:
     """a generated project under one option combination; unity builds also vary unity_size (2..5) and tell the
     generator, which then makes source counts hit its exact multiples; a few jobs force response files everywhere"""
@@ -796,7 +827,18 @@ def gen_job(rng, label: str, args: T.List[str], feats: T.Optional[dict] = None, 
         feats['unity_size'] = us
     if rng.random() < 0.3:
         feats['odd_names'] = 0.9
-    job = {'kind': 'gen', 'label': f'{group}:{label}', 'seed': rng.getrandbits(48), 'features': feats, 'args': args}
+    # every other option that changes what the backend writes, at boundary / every value (enumerated from the live tables)
+    ov = option_values()
+    extra = {}
+    backendish = sorted(k for k in ov if k.startswith('backend_'))
+    for k in backendish:
+        if rng.random() < 0.6:
+            extra[k] = rng.choice(ov[k])
+    for k in rng.sample(sorted(set(ov) - set(backendish)), rng.choice([0, 1, 1, 2, 3])):
+        extra[k] = rng.choice(ov[k])
+    args += [f'-D{k}={v}' for k, v in sorted(extra.items())]
+    job = {'kind': 'gen', 'label': f'{group}:{label}', 'seed': rng.getrandbits(48), 'features': feats, 'args': args,
+           'options': extra}
     if rng.random() < 0.1:
         job['env'] = {'MESON_RSP_THRESHOLD': '0'}
     return job
@@ -877,7 +919,7 @@ def judge_project(ctx: Ctx, rec: dict, lean_check: T.Optional[str], lean_parse: 
         ctx.tag('oracle:invalid-manifest')
     else:
         g = rec['pygraph']
-        ov = oracle_check(g['rules'], g['edges'], lambda p: p in fs, rec['reqs'])
+        ov = oracle_check(g['rules'], g['edges'], lambda p: p in fs, rec['reqs'], g.get('pools', ()), g.get('defaults', ()))
         if not ov['wf']:
             failed = [k for k in CLAUSES[1:] if not ov[k]]
             key = known_key or f'illformed:{"+".join(failed)}:{label}'
@@ -894,7 +936,10 @@ def judge_project(ctx: Ctx, rec: dict, lean_check: T.Optional[str], lean_parse: 
                 if all(root in ('meson-test-prereq', 'meson-benchmark-prereq') and t in progs
                        for root, t in ov['unreached_pairs']):
                     key = 'test-program-via-override-not-in-test-prereq'
-            ctx.violation(key, f'build.ninja of a successfully configured project is not well-formed: {failed} {ov["detail"]}', case)
+            det = dict(ov['detail'])
+            if not ov['pools'] or not ov['defaults']:
+                det.update(ov['detail_decl'])
+            ctx.violation(key, f'build.ninja of a successfully configured project is not well-formed: {failed} {det}', case)
             ctx.tag('oracle:illformed:' + '+'.join(failed))
         else:
             ctx.tag('oracle:wellformed')
@@ -979,6 +1024,8 @@ def run_projects(ctx: Ctx, oracle_only: bool = False, jobs_fn=make_jobs) -> T.Li
             ctx.tag('edges', ne)
             ctx.tag('reqs', len(r['reqs']))
             ctx.tag('reqs-from-spec', r.get('nspec', 0))
+            for k, v in (job.get('options') or {}).items():
+                ctx.tag(f'option:{k}={v}')
             if group == 'gen':
                 ctx.tag('matrix:' + label[4:])
                 # features whose file names are computed by a second code path than the statement that produces them
@@ -1026,6 +1073,10 @@ def run_projects(ctx: Ctx, oracle_only: bool = False, jobs_fn=make_jobs) -> T.Li
             elif group in ('gen', 'pipe') and '--layout=flat' in job['args'] and 'Multiple producers' in r['error']:
                 # the same name in two directories / in a subproject: collides under layout=flat, rejected at configure time
                 ctx.tag('flat-collision-rejected')
+            elif group in ('gen', 'pipe') and job.get('options') and not re.search(r'meson\.build:\d+:\d+: ERROR', r['error']) \
+                    and 'Multiple producers' not in r['error']:
+                # an option combination this toolchain refuses (e.g. thin LTO with gcc): nothing was generated
+                ctx.tag('option-combination-rejected')
             elif label == 'fixed-objname-clash' and 'Multiple producers' in r['error']:
                 ctx.tag('objname-clash-rejected')
             else:
@@ -1039,7 +1090,7 @@ def run_projects(ctx: Ctx, oracle_only: bool = False, jobs_fn=make_jobs) -> T.Li
 # ---------------------------------------------------------------------------------------------------------------
 # checker vs oracle on random graphs and mutated manifests
 
-def rand_graph(rng) -> T.Tuple[T.List[str], T.List[dict], T.List[str], T.List[T.Tuple[str, str]]]:
+def rand_graph(rng):
     nodes = [f'n{i}' for i in range(rng.randint(2, 8))] + rng.sample(['a b', 'x:y', '../s.c', '/abs', 'é'], rng.randint(0, 2))
     rules = rng.sample(['R', 'S', 'CC'], rng.randint(0, 3))
     edges = []
@@ -1061,17 +1112,22 @@ def rand_graph(rng) -> T.Tuple[T.List[str], T.List[dict], T.List[str], T.List[T.
             ins = [rng.choice(nodes) for _ in range(rng.randint(0, 3))]
         vals = [rng.choice(nodes)] if rng.random() < 0.1 else []
         rule = rng.choice(['phony', 'R', 'S', 'CC', 'U'] if rng.random() < 0.5 else ['phony'] + rules)
-        edges.append({'rule': rule, 'outs': outs, 'iouts': [], 'ins': ins, 'impl': [], 'oo': [], 'vals': vals})
+        pool = rng.choice(['', '', '', 'console', 'link_pool', 'p2', 'nope'])
+        edges.append({'rule': rule, 'outs': outs, 'iouts': [], 'ins': ins, 'impl': [], 'oo': [], 'vals': vals, 'pool': pool})
     allnodes = sorted({x for e in edges for x in e['outs'] + e['ins'] + e['vals']} | set(nodes))
     fs = [x for x in allnodes if rng.random() < (0.8 if style < 0.45 else 0.4)]
     reqs = [(rng.choice(allnodes), rng.choice(allnodes)) for _ in range(rng.randint(0, 3))]
-    return rules, edges, fs, reqs
+    pools = [rng.choice(['link_pool', 'p2', 'link_pool', 'console' if rng.random() < 0.1 else 'p3'])
+             for _ in range(rng.randint(0, 3))] if rng.random() < 0.7 else ['link_pool', 'p2']
+    defaults = [rng.choice(allnodes) for _ in range(rng.randint(0, 2))] if rng.random() < 0.6 else []
+    return rules, edges, fs, reqs, pools, defaults
 
 
-def graph_line(rules, edges, fs, reqs) -> str:
-    es = '/'.join(';'.join([enc(e['rule']), enc_list(edge_all_outs(e)), enc_list(edge_all_ins(e)), enc_list(e['vals'])])
-                  for e in edges)
-    return f'checkg {enc_list(rules)}|{es}|{enc_list(fs)}|{enc_list([x for rt in reqs for x in rt])}'
+def graph_line(rules, edges, fs, reqs, pools, defaults) -> str:
+    es = '/'.join(';'.join([enc(e['rule']), enc_list(edge_all_outs(e)), enc_list(edge_all_ins(e)), enc_list(e['vals']),
+                            enc(e.get('pool', ''))]) for e in edges)
+    return (f'checkg {enc_list(rules)}|{es}|{enc_list(fs)}|{enc_list([x for rt in reqs for x in rt])}|'
+            f'{enc_list(pools)}|{enc_list(defaults)}')
 
 
 def run_graphs(ctx: Ctx) -> None:
@@ -1080,15 +1136,15 @@ def run_graphs(ctx: Ctx) -> None:
     cases = [rand_graph(rng) for _ in range(n)]
     ans = ctx.driver('ninja', [graph_line(*c) for c in cases]) if ctx.model_available else []
     for c, a in zip(cases, ans):
-        rules, edges, fs, reqs = c
+        rules, edges, fs, reqs, pools, defaults = c
         fss = set(fs)
-        ov = oracle_check(rules, edges, lambda p: p in fss, reqs)
+        ov = oracle_check(rules, edges, lambda p: p in fss, reqs, pools, defaults)
         lv = parse_verdict(a)
         ctx.count()
         ctx.extra['disagreements_checked'] = ctx.extra.get('disagreements_checked', 0) + 1
         ctx.tag('graph:' + ''.join(str(int(ov[k])) for k in CLAUSES[1:]))
         if 'error' in lv or any(lv[k] != ov[k] for k in CLAUSES):
-            ctx.disagreement({'kind': 'graph-verdict', 'input': [rules, edges, fs, reqs], 'lean': a[:300],
+            ctx.disagreement({'kind': 'graph-verdict', 'input': [rules, edges, fs, reqs, pools, defaults], 'lean': a[:300],
                               'oracle': {k: ov[k] for k in CLAUSES}})
 
 
@@ -1097,7 +1153,8 @@ def mutate_text(rng, text: str) -> T.Tuple[str, str]:
     builds = [i for i, l in enumerate(lines) if l.startswith('build ')]
     rulesl = [i for i, l in enumerate(lines) if l.startswith('rule ')]
     kind = rng.choice(['drop-rule', 'dup-output', 'back-edge', 'drop-build', 'rename-rule', 'self-loop', 'garbage',
-                       'dup-rule', 'bad-default', 'none'])
+                       'dup-rule', 'bad-default', 'none', 'rule-pool-undeclared', 'build-pool-undeclared', 'pool-declared',
+                       'pool-twice', 'drop-pool-decl', 'unknown-statement'])
     if not builds or not rulesl:
         return 'none', text
 
@@ -1142,6 +1199,28 @@ def mutate_text(rng, text: str) -> T.Tuple[str, str]:
         i = rng.choice(rulesl)
         blk = lines[i:block_end(i)]
         lines[i:i] = blk + ['']
+    elif kind == 'rule-pool-undeclared':
+        i = rng.choice(rulesl)
+        lines.insert(i + 1, ' pool = some_pool')
+    elif kind == 'build-pool-undeclared':
+        i = rng.choice(builds)
+        lines.insert(i + 1, ' pool = ' + rng.choice(['some_pool', 'console', '']))
+    elif kind == 'pool-declared':
+        i = rng.choice(rulesl)
+        lines.insert(i + 1, ' pool = some_pool')
+        lines[0:0] = ['pool some_pool', ' depth = ' + rng.choice(['0', '1', '7']), '']
+    elif kind == 'pool-twice':
+        lines[0:0] = ['pool some_pool', ' depth = 2', '', 'pool ' + rng.choice(['some_pool', 'console', 'other']), ' depth = 1', '']
+    elif kind == 'drop-pool-decl':
+        pl = [i for i, l in enumerate(lines) if l.startswith('pool ')]
+        if pl:
+            i = rng.choice(pl)
+            del lines[i:block_end(i)]
+        else:
+            kind = 'none'
+    elif kind == 'unknown-statement':
+        i = rng.choice(builds)
+        lines.insert(i, rng.choice(['dyndep_default x', 'phony a: b', 'builddir', 'rule2 X', 'pool', 'buildx a: phony']))
     elif kind == 'bad-default':
         lines.append('default nothing-like-this')
         lines.append('')
@@ -1179,7 +1258,7 @@ def run_mutated_manifests(ctx: Ctx, recs: T.List[dict]) -> None:
                 # (the Lean reader parses the whole text before loading, so a later syntax error may win: both reject)
                 ctx.disagreement({'kind': 'mutant-load-error', 'mutation': kind, 'oracle': str(e), 'lean': a[:200], 'input': text})
             continue
-        ov = oracle_check(g['rules'], g['edges'], lambda p: p in fss, r['reqs'])
+        ov = oracle_check(g['rules'], g['edges'], lambda p: p in fss, r['reqs'], g.get('pools', ()), g.get('defaults', ()))
         ctx.tag(f'mutant:{kind}:' + ''.join(str(int(ov[k])) for k in CLAUSES[1:]))
         if 'error' in lv or any(lv[k] != ov[k] for k in CLAUSES):
             ctx.disagreement({'kind': 'mutant-verdict', 'mutation': kind, 'lean': a[:300],
@@ -1376,7 +1455,7 @@ def run_emission(ctx: Ctx) -> None:
                     ctx.disagreement({'kind': 'emit-parse-error', 'input': cases[k], 'oracle': str(e), 'lean': a[:200]})
                 continue
             lp = parse_dump(a)
-            if isinstance(lp, str) or not same_graph(lp, {'rules': g['rules'], 'defaults': g['defaults'], 'edges': g['edges']}):
+            if isinstance(lp, str) or not same_graph(lp, {'rules': g['rules'], 'defaults': g['defaults'], 'edges': g['edges'], 'pools': g['pools']}):
                 ctx.disagreement({'kind': 'emit-parse', 'input': cases[k], 'lean': a[:300]})
 
 
@@ -1587,7 +1666,7 @@ def replay(ctx: Ctx, rep: dict) -> None:
             a = ctx.driver('ninja', [f'check {t}|{enc_list(rec["fs"])}|{enc_list(reqs)}'])[0] if ctx.model_available else None
             if rec['pyerr'] is None:
                 fs = set(rec['fs'])
-                ov = oracle_check(rec['pygraph']['rules'], rec['pygraph']['edges'], lambda p: p in fs, rec['reqs'])
+                ov = oracle_check(rec['pygraph']['rules'], rec['pygraph']['edges'], lambda p: p in fs, rec['reqs'], rec['pygraph'].get('pools', ()), rec['pygraph'].get('defaults', ()))
                 print('oracle:', {k: ov[k] for k in CLAUSES}, ov['detail'])
             else:
                 print('oracle: manifest unreadable:', rec['pyerr'])
